@@ -152,6 +152,7 @@ pub fn run_case(prop: &str, tapes: &mut Tapes) -> Result<CaseResult, HarnessErro
     let bias_tags = crate::runner::wants_tag_bias(prop) && tapes.query.draw(2) == 1;
     // C09: in a fifth of the cases some argument values are deliberately outside what the
     // harness's typing of the variable admits; the engine decides whether to accept them.
+    crate::runner::MANY_FILTERS.with(|m| m.set(prop == "C04"));
     let adversarial_args = prop == "C09" && tapes.args.draw(5) == 0;
     let w = match crate::runner::build_workload_full(tapes, bias, bias_tags, adversarial_args) {
         Ok(w) => w,
